@@ -146,6 +146,7 @@ type Sim struct {
 	// abnormally (slow window or clock jump), by any task: the clock is
 	// global, so every call in flight meanwhile has experienced the delay.
 	TimeFaultEvents int
+	StmtSteps       int // statement-level yields taken
 	schedNameCtr    uint64
 	CallerPkg       string
 }
